@@ -33,7 +33,7 @@ import (
 // keeps the record and stays the journal all later commits are appended to. The same holds for
 // the commit of a flush. Proposed repair: proposed_fix_failed_commit_starts_new_manifest.diff.
 func TestRegression_CompactionCommitSyncFailureThenReopen(t *testing.T) {
-	skipIfKnown(t, SigCommitSyncFault, "a compaction whose manifest sync reports an error leaves its edit log in the manifest while memory keeps the inputs and the outputs are deleted: after a reopen the family references deleted files and has lost the inputs")
+	// signature SigCommitSyncFault: repaired in /repo (fix: commit whose manifest sync fails ...); fails if the defect returns
 	for _, second := range []bool{false, true} {
 		name := "reopen"
 		if second {
